@@ -10,7 +10,7 @@ enum RFn { FLOOR = 0, CEIL = 1, ROUND = 2 };
 
 struct RStats {
     unsigned long long values = 0, judged = 0, hold = 0, band = 0, viol = 0, skip_overflow = 0, skip_out_range = 0, skip_headroom = 0,
-                       up = 0, down = 0, exact_int = 0;
+                       up = 0, down = 0, exact_int = 0, ties_away = 0, ties_toward = 0;
     bool type_ok = true;
     int shown[3] = {0, 0, 0};
     const char *only_fn = nullptr, *only_out = nullptr;
@@ -67,6 +67,8 @@ inline void rec(RStats &st, int id, RFn fn, const char *name, const char *out, X
     if (fn == ROUND && out[0] == 0) {
         if (r > e) ++st.up;
         if (r < e) ++st.down;
+        // information only (the statement does not fix the direction of ties): exact ties and where they went
+        if (std::fabs(e - std::trunc(e)) == 0.5L) (std::fabs(r) > std::fabs(e) ? st.ties_away : st.ties_toward)++;
     }
     if (v == 2) {
         ++st.viol;
@@ -200,9 +202,9 @@ void run_round(int id) {
     for (auto x : vals) round_one<I>(st, id, x);
     typedef decltype(au::round_as(I::slot(), mk<I>(typename I::R(), BoolC<I::POINT>()))) AsT;
     std::printf("S {\"inst\":%d,\"values\":%llu,\"judged\":%llu,\"hold\":%llu,\"band\":%llu,\"viol\":%llu,\"skip_overflow\":%llu,"
-                "\"skip_out_range\":%llu,\"skip_headroom\":%llu,\"up\":%llu,\"down\":%llu,\"exact_int\":%llu,\"type_ok\":%d,%s}\n",
+                "\"skip_out_range\":%llu,\"skip_headroom\":%llu,\"up\":%llu,\"down\":%llu,\"exact_int\":%llu,\"ties_away\":%llu,\"ties_toward\":%llu,\"type_ok\":%d,%s}\n",
                 id, st.values, st.judged, st.hold, st.band, st.viol, st.skip_overflow, st.skip_out_range, st.skip_headroom, st.up, st.down,
-                st.exact_int, (int)st.type_ok, vf::unit_json<typename AsT::Unit>().c_str());
+                st.exact_int, st.ties_away, st.ties_toward, (int)st.type_ok, vf::unit_json<typename AsT::Unit>().c_str());
     std::fflush(stdout);
 }
 
